@@ -100,7 +100,7 @@ struct Stream {
   std::function<void(const uint8_t*, size_t)> onWrite;  // bytes written by the code under test
   std::function<void()> onClose;
   std::function<void(const uint8_t*, size_t)> onRead;   // bytes a read() returned to the code under test
-  std::function<void(int)> onPoll;                      // a poll on this fd returned (0 = timeout)
+  std::function<void(int, ns_t, ns_t)> onPoll;          // a poll on this fd returned (ret, requested timeout, elapsed)
   // how many of 'avail' buffered bytes a read() of 'want' returns (chunking); default: all
   std::function<size_t(size_t avail, size_t want)> readLimit;
   // fault hook, consulted at every I/O call: op is 'r' read, 'w' write, 'p' poll. Return value:
